@@ -98,7 +98,7 @@ func (x *Exec) addOblSplit(st *State, kind, sub string, goal *Term, pos token.Po
 		if g.Op == "forall" && len(g.Vars) == 1 && g.Args[0].Op == "=>" {
 			v := g.Vars[0]
 			rng, body := g.Args[0].Args[0], g.Args[0].Args[1]
-			if rng.Op == "and" && len(rng.Args) == 2 && rng.Args[1].Op == "bvslt" && rng.Args[1].Args[0] == v && !rng.Args[1].Args[1].Bound && v.Sort == IdxSort {
+			if rng.Op == "and" && len(rng.Args) == 2 && (rng.Args[1].Op == "bvslt" || rng.Args[1].Op == "<") && rng.Args[1].Args[0] == v && !rng.Args[1].Args[1].Bound && v.Sort == IdxSort {
 				lo, hi := rng.Args[0], rng.Args[1].Args[1]
 				last := c.BVBin("bvsub", hi, c.BVI(1, 64))
 				lt := c.Forall([]*Term{v}, c.Implies(c.And(lo, c.BVCmp("bvslt", v, last)), body), g.Pats...)
